@@ -20,6 +20,7 @@ func init() {
 			"oracle (counts and order only): a value is buffered at return (live context), closed and empty at return (context cancelled beforehand), cap==1 and len<=1 at every sample, total <= count, timestamps non-decreasing, channel closed after the count-th value and within the bound after cancellation, " +
 			"at most 2 values obtained after the receiver observed the cancellation (cancel() returned / ctx.Err()!=nil), no goroutine with a LinearAttempt frame left after the close was observed. " +
 			"fast-ticks-under-load: 16-48 concurrent attempts with rate 100ns-1us, huge count, prompt or slightly slow receivers and a deadline context, in a deliberately oversubscribed process (ticks are always ready next to Done; tick times jitter). " +
+			"err-only-context: a Context whose Err() reports the cancellation but whose Done() channel never closes (the shape the repository's own example uses; the post-tick guard exists for it): cancelled beforehand -> closed and empty at return; cancelled later with the receiver absent or gone after k values -> the producer exits within the bound WITHOUT the channel being drained, then at most 2 values are left and the channel is closed. " +
 			"non-trivial = the cancellation landed while the producer goroutine was alive (or the directed window was entered); distinct = distinct (count, rate, receiver, cancellation, outcome) signatures",
 		Assumptions: []string{"no wall-clock comparison is used: 'immediately' = available by non-blocking receive at return, 'promptly' = within 5000 heartbeats + rate"},
 		Families: []core.Family{
@@ -27,6 +28,7 @@ func init() {
 			{Name: "directed-tick-race", N: core.TierN(120, 4800), Batch: 20, Run: c20Directed},
 			{Name: "directed-full-buffer", N: core.TierN(60, 2400), Batch: 20, Run: c20FullBuffer},
 			{Name: "fast-ticks-under-load", N: core.TierN(16, 480), Batch: 2, Run: c20FastTicks},
+			{Name: "err-only-context", N: core.TierN(90, 3600), Batch: 30, Run: c20ErrOnly},
 		},
 	})
 }
@@ -389,4 +391,94 @@ func c20FullBuffer(c *core.Ctx) {
 		c.R.WinMissed++
 	}
 	c.Sig("fullbuffer", rate, total, window)
+}
+
+// c20ErrOnlyCtx reports cancellation through Err() only: its Done() channel never closes.
+type c20ErrOnlyCtx struct{ context.Context }
+
+var c20NeverClosed = make(chan struct{})
+
+func (c20ErrOnlyCtx) Done() <-chan struct{} { return c20NeverClosed }
+
+// c20ErrOnly: LinearAttempt with a context that never closes Done(). The guards on ctx.Err() (at entry and after each
+// tick) are then the only way the cancellation is noticed.
+func c20ErrOnly(c *core.Ctx) {
+	count := core.Pick(c.Rng, 1, 2, 2, 3, 4, 9)
+	rate := core.Pick(c.Rng, 50*time.Microsecond, 200*time.Microsecond, time.Millisecond)
+	mode := core.Pick(c.Rng, "before", "absent", "absent", "leaves-after-k")
+	inner, cancel := context.WithCancel(context.Background())
+	defer cancel()
+	ctx := c20ErrOnlyCtx{inner}
+	desc := fmt.Sprintf("err-only context, count=%d rate=%s mode=%s", count, rate, mode)
+	if mode == "before" {
+		cancel()
+		ch := bigbuff.LinearAttempt(ctx, rate, count)
+		select {
+		case v, ok := <-ch:
+			if ok {
+				c.Violate("value-after-precancel", "context was cancelled beforehand (Err() != nil) but the channel yielded %v; %s", v, desc)
+			}
+		default:
+			c.Violate("not-closed-at-return", "context was cancelled beforehand (Err() != nil) but the channel is not closed at return; %s", desc)
+		}
+		if leaks := core.LibLeaks(3000 + int(rate/time.Millisecond)*2); len(leaks) > 0 {
+			c.Violate("producer-leaked", "a producer goroutine was started although the context was cancelled beforehand: %s; %s", firstLineOf(leaks[0]), desc)
+		}
+		c.Op("attempt", 1)
+		c.Nontrivial()
+		c.Sig(desc)
+		return
+	}
+	ch := bigbuff.LinearAttempt(ctx, rate, count)
+	total := 0
+	if mode == "leaves-after-k" {
+		k := 1 + c.Rng.IntN(count)
+		for total < k {
+			_, ok, got := core.AwaitChan(ch, 5000+int(rate/time.Millisecond)*2)
+			if !got || !ok {
+				break
+			}
+			total++
+		}
+	}
+	// nobody receives from here on; give the producer time to reach (and retry) the send it cannot complete
+	time.Sleep(rate * time.Duration(1+c.Rng.IntN(count+2)))
+	alive := len(core.LibGoroutines(core.DumpAll())) > 0
+	cancel()
+	// the producer must notice at its next tick and exit, with nobody draining the channel
+	if leaks := core.LibLeaks(5000 + int(rate/time.Millisecond)*2); len(leaks) > 0 {
+		c.Violate("producer-stuck", "the producer goroutine is still alive after the cancellation although ticks keep coming (nobody is receiving, %d values were taken before): %s; %s", total, firstLineOf(leaks[0]), desc)
+		c.SetDump(leaks[0])
+		cancel()
+		for range ch { // let it go
+		}
+		return
+	}
+	after := 0
+	for {
+		_, ok, got := core.AwaitChan(ch, 3000)
+		if !got {
+			c.Violate("not-closed", "the producer exited but the channel is neither readable nor closed; %s", desc)
+			return
+		}
+		if !ok {
+			break
+		}
+		after++
+		if after > 5 {
+			break
+		}
+	}
+	if after > 2 {
+		c.Violate("ticks-after-cancel", "%d values were obtained after the cancellation; %s", after, desc)
+	}
+	if total+after > count {
+		c.Violate("too-many-values", "%d values received, count is %d; %s", total+after, count, desc)
+	}
+	c.Op("attempt", 1)
+	c.Op("value", total+after)
+	if alive {
+		c.Nontrivial()
+	}
+	c.Sig(count, rate, mode, total, after, alive)
 }
